@@ -19,7 +19,9 @@ import (
 // {unsigned, trusted, untrusted, tampered, wrapped, relocated signature}, kind confusion
 // between endpoints, raw or compressed, checking on or off, issuer configured or not.
 
-var c10Faults = []string{"none", "version-wrong", "version-absent", "destination-wrong", "issuer-missing", "issuer-wrong", "status-missing", "statuscode-missing", "status-nonsuccess", "status-nested-partiallogout-under-failure"}
+var c10Faults = []string{"none", "version-wrong", "version-absent", "destination-wrong", "issuer-missing", "issuer-wrong", "status-missing", "statuscode-missing", "status-nonsuccess", "status-nested-partiallogout-under-failure",
+	// no saml:Issuer, but an element called Issuer from a namespace that is not SAML's carrying the expected value
+	"issuer-only-foreign-ns"}
 var c10Signing = []string{"trusted", "unsigned", "untrusted", "tampered", "wrapped-new-id", "wrapped-same-id", "relocated-signature", "foreign-signature"}
 var c10Kinds = []string{"LogoutRequest", "LogoutResponse", "misroute:Response-at-SLO", "misroute:request-as-response", "misroute:response-as-request", "misroute:logout-at-ACS"}
 
@@ -133,6 +135,8 @@ func logoutAdversarial(r *core.Run, prop string) {
 		m.Destination = strp([]string{"https://other-sp.example/slo", s.Fed.SLO + "/", s.Fed.ACS, strings.ToUpper(s.Fed.SLO), " " + s.Fed.SLO, s.Fed.SLO + " ", s.Fed.SLO + "\n"}[t.Int(7, "c10.dest")])
 	case "issuer-missing":
 		m.Issuer = nil
+	case "issuer-only-foreign-ns":
+		m.Issuer, m.ForeignIssuer = nil, strp(s.Fed.IdPIssuer)
 	case "issuer-wrong":
 		good := s.Fed.IdPIssuer
 		m.Issuer = strp([]string{"https://evil-idp.example/meta", " " + good, good + " ", "\n\t" + good + "\n", good + "/", strings.ToUpper(good), good + "\u00a0", "x" + good}[t.Int(8, "c10.issuer")])
@@ -295,6 +299,9 @@ func logoutAdversarial(r *core.Run, prop string) {
 	}
 	enc := world.Present(xml, compress, 6)
 	r.Sim.Advance(time.Duration(t.Int(30, "c10.delay")) * time.Second)
+	if t.Int(5, "c10.ambient") == 1 {
+		s.NeighbourNoise(enc)
+	}
 
 	var out world.Outcome
 	var got world.NLogout
@@ -451,6 +458,8 @@ func c10CheckFault(r *core.Run, prop, fault string, out world.Outcome, ctx map[s
 		"statuscode-missing": {{"missing", []string{"statuscode"}}},
 		"status-nonsuccess":  {{"invalid", []string{"statuscode", "status"}}},
 		"status-nested-partiallogout-under-failure": {{"invalid", []string{"statuscode", "status"}}},
+		// the message is malformed as well (an element the schema has no place for): any rejection will do
+		"issuer-only-foreign-ns": {{"any", nil}},
 	}[fault]
 	if !errMatches(out.Err, exp) {
 		ctx["class"] = world.ErrClass(out.Err)
